@@ -37,7 +37,7 @@ Lemma start_asd price c :
   ownbc (start price c) = call_bc c /\
   fut (start price c) = call_ids c.
 Proof.
-  destruct c as [o|qty taker|u| | | | |]; cbn [start]; try (repeat split; fail).
+  destruct c as [o|qty taker|u| | | | | |]; cbn [start]; try (repeat split; fail).
   - destruct (next_iter_asd (mkMloc taker qty (result_new taker qty) [])) as (Ha & Hv & Hh & Hc & Hb & Hbc & Hid & Hf & Hok).
     cbn [ml_aside] in Ha. cbn [call_budget call_bc call_ids]. repeat split; assumption.
   - destruct u as [k np|k nq|k np nq|k|k p q sd]; cbn [call_budget call_bc call_ids];
@@ -244,6 +244,10 @@ Proof.
   - (* RdC *) gen Hstep HK.
   - (* RdL *) gen Hstep HK.
   - (* G1 *) gen Hstep HK.
+  - (* Sn1 *) gen Hstep HK.
+  - (* Sn2 *) gen Hstep HK.
+  - (* Sn3 *) gen Hstep HK.
+  - (* Sn4 *) gen Hstep HK.
 Qed.
 
 Ltac finB :=
@@ -331,6 +335,10 @@ Proof.
   - (* RdC *) genB Hstep.
   - (* RdL *) genB Hstep.
   - (* G1 *) genB Hstep.
+  - (* Sn1 *) genB Hstep.
+  - (* Sn2 *) genB Hstep.
+  - (* Sn3 *) genB Hstep.
+  - (* Sn4 *) genB Hstep.
 Qed.
 
 End WithMf.
